@@ -246,6 +246,7 @@ class Quote(BlockToken):
         in_code_fence = CodeFence.start(line)
         in_block_code = BlockCode.start(line)
         blank_line = line.strip() == ''
+        has_lazy_lines = False
 
         # following lines
         next_line = lines.peek()
@@ -271,15 +272,20 @@ class Quote(BlockToken):
             else:
                 # lazy continuation, preserve whitespace
                 line_buffer.append(next_line)
+                has_lazy_lines = True
             next(lines)
             next_line = lines.peek()
 
-        # parse child block tokens
-        Paragraph.parse_setext = False
+        # parse child block tokens.
+        # a lazy continuation line cannot be a setext heading underline, but once the markers
+        # are stripped it looks like any other line: if there are such lines, we don't look
+        # for setext headings in this quote.
+        parse_setext = Paragraph.parse_setext
+        Paragraph.parse_setext = parse_setext and not has_lazy_lines
         try:
             parse_buffer = tokenizer.tokenize_block(line_buffer, _token_types, start_line=start_line)
         finally:
-            Paragraph.parse_setext = True
+            Paragraph.parse_setext = parse_setext
         return parse_buffer
 
     @staticmethod
